@@ -204,7 +204,7 @@ func (r *Runner) body(id string, l *layout) func([]reflect.Value) []reflect.Valu
 		if out == "err" {
 			e := &ExecErr{id, n}
 			r.sentinel[planKey{id, n}] = e
-			res[len(res)-1] = reflect.ValueOf(e).Convert(errType)
+			res[l.errIndex(len(res))] = reflect.ValueOf(e).Convert(errType)
 		}
 		return res
 	}
